@@ -63,7 +63,8 @@ def _one(args):
     else:
         m = re.search(r"error: (.*) when calling (\w+\(.*\))(?: \(which returns .*\))?\s*$", out, re.M)
         if m:
-            verdict, detail = "refuted", {"message": m.group(1), "call": m.group(2)}
+            call = re.sub(r"\s*\(which returns .*\)\s*$", "", m.group(2))
+            verdict, detail = "refuted", {"message": m.group(1), "call": call}
         elif "error:" in out:
             m2 = re.search(r"error: (.*)$", out, re.M)
             verdict, detail = "refuted", {"message": m2.group(1) if m2 else out[-300:], "call": None}
@@ -77,8 +78,9 @@ def replay_call(path, call):
         "import sys, logging; logging.disable(logging.CRITICAL); sys.path.insert(0, %r)\n"
         "import %s as M\n"
         "from %s import *\n"
+        "code = compile(%r, '<counterexample>', 'eval')\n"
         "try:\n"
-        "    r = eval(%r, vars(M))\n"
+        "    r = eval(code, vars(M))\n"
         "    print('RESULT', repr(r))\n"
         "except Exception as e:\n"
         "    print('RAISED', type(e).__name__, e)\n" % (os.path.dirname(path), mod, mod, call)
